@@ -50,7 +50,8 @@ def shrink_case(prop, part, tier, case, want):
     if not hasattr(part, "shrink"):
         return case
     cur = case
-    for _ in range(getattr(part, "SHRINK_ROUNDS", 12)):
+    rounds = int(os.environ.get("VERIF_SHRINK_ROUNDS", getattr(part, "SHRINK_ROUNDS", 12)))
+    for _ in range(rounds):
         cands = [dict(c) for c in list(part.shrink(cur))[:getattr(part, "SHRINK_WIDTH", 120)]]
         if not cands:
             break
@@ -100,6 +101,14 @@ def run_property(mod, tier, seed, replay=None):
             st["discharged"] += extra_info.get("discharged", 0)
             st["theorems"] = st["theorems"] + extra_info.get("theorems", [])
             st["assumptions"].update(extra_info.get("assumptions", {}))
+    if tier == "thorough" and core.theorems_closed(st) and not problems and not os.environ.get("VERIF_NO_COQCHK"):
+        try:
+            okc, summ = core.coqchk(mod.PROP_FILE, getattr(mod, "COQCHK_EXTRA", ()))
+        except Exception as e:
+            okc, summ = False, {"error": str(e)}
+        st["coqchk"] = summ
+        if not okc:
+            problems.append({"kind": "theorem", "what": "coqchk does not accept the compiled development of %s or reports axioms" % mod.PROP_FILE, "coqchk": summ})
     if not ok_h:
         core.write_evidence(prop, tier, seed, st, {"evaluations": 0, "distinct_nontrivial": 0, "rule": getattr(mod, "RULE", ""),
                             "samples": [], "explanation": "harness build failed"}, time.time() - t0, 1)
